@@ -11,6 +11,7 @@ import (
 	"strconv"
 	"strings"
 	"sync"
+	"sync/atomic"
 	"time"
 
 	"verif/mc/evid"
@@ -31,7 +32,47 @@ type Ctx struct {
 	savePath string
 	// Param passes a sub-mode to sched-binary workers.
 	Param string
+	// watchdog of CurGuard
+	guardAt   atomic.Int64
+	guardCase atomic.Value
+	guardOn   bool
 }
+
+type guardedCase struct {
+	key, what string
+	v         interface{}
+	limit     time.Duration
+}
+
+// CurGuard is Cur plus a watchdog for code that runs in the worker's own goroutine (a decoder cannot be waited for with
+// a deadline): when the case is still the current one after limit, the worker records a violation under key for it and
+// stops. The limit is a termination verdict, not a performance one: callers use it for work that takes microseconds.
+func (c *Ctx) CurGuard(v interface{}, key, what string, limit time.Duration) {
+	c.Cur(v)
+	c.guardCase.Store(guardedCase{key, what, v, limit})
+	c.guardAt.Store(time.Now().UnixNano())
+	if c.guardOn {
+		return
+	}
+	c.guardOn = true
+	go func() {
+		for {
+			time.Sleep(time.Second)
+			at := c.guardAt.Load()
+			g, _ := c.guardCase.Load().(guardedCase)
+			if at == 0 || g.limit == 0 || time.Since(time.Unix(0, at)) < g.limit {
+				continue
+			}
+			if c.guardAt.Load() != at {
+				continue
+			}
+			c.Abort(g.key, fmt.Sprintf("%s (no return within %v; the worker stopped)", g.what, g.limit), g.v)
+		}
+	}()
+}
+
+// Unguard ends the watch of the current case.
+func (c *Ctx) Unguard() { c.guardAt.Store(0) }
 
 // Cur writes the case about to be executed ahead of executing it, so that the parent can
 // turn it into a replay if this process dies.
@@ -231,7 +272,7 @@ func runWorkers(id, tier, bin string, n int, outdir, param string, merged *evid.
 			cmd.Env = append(os.Environ(), "GOMAXPROCS=2", "VERIF_PARAM="+param)
 			if param == "sched" {
 				cmd.Env = append(cmd.Env, "GOMAXPROCS=2",
-					"GORACE=halt_on_error=0 log_path="+filepath.Join(outdir, fmt.Sprintf("race%d", k)))
+					"GORACE=halt_on_error=0 history_size=7 log_path="+filepath.Join(outdir, fmt.Sprintf("race%d", k)))
 			}
 			errf, _ := os.Create(filepath.Join(outdir, fmt.Sprintf("w%d.stderr", k)))
 			cmd.Stderr = errf
